@@ -81,4 +81,9 @@ class LitePreKeyStore(PreKeyStore):
         cursor = self.dbConn.cursor()
         cursor.execute(q)
         result = cursor.fetchone()
-        return 0 if result[0] is None else result[0]
+        stored_max = 0 if result[0] is None else result[0]
+        # rows of consumed prekeys are deleted, so the highest id still stored can be lower than the highest id ever
+        # handed out; the AUTOINCREMENT counter of the table is not lowered by deletions
+        cursor.execute("SELECT seq FROM sqlite_sequence WHERE name = 'prekeys'")
+        result = cursor.fetchone()
+        return max(stored_max, 0 if result is None or result[0] is None else result[0])
